@@ -114,3 +114,37 @@ pub fn slice_enumerate<T>(s: &Vec<T>) -> (r: Vec<(usize, &T)>)
 pub fn strings_join_str(v: &Vec<String>, sep: &str) -> (r: String)
     ensures str_bytes(r@) == join(vals_bytes(v@), sep.spec_bytes())
 { unimplemented!() }
+
+/// `a != b` for `&str` and `String`
+#[verifier::external_body]
+pub fn str_ne_string(a: &str, b: &String) -> (r: bool)
+    ensures r == (a.spec_bytes() != str_bytes(b@))
+{ unimplemented!() }
+
+/// `s.split_once(c).map(|x| x.1)`: the text after the first `c`, None if `c` does not occur
+#[verifier::external_body]
+pub fn str_after_first<'a>(s: &'a str, c: char) -> (r: Option<&'a str>)
+    requires (c as u32) < 128
+    ensures
+        first_index(s.spec_bytes(), c as u8, 0) < s.spec_bytes().len() ==> r is Some && r->Some_0.spec_bytes() == split_first(s.spec_bytes(), c as u8).1,
+        first_index(s.spec_bytes(), c as u8, 0) >= s.spec_bytes().len() ==> r is None,
+{ unimplemented!() }
+
+/// `s.split(c).next()`: the text before the first `c` (the whole string if `c` does not occur); never None
+#[verifier::external_body]
+pub fn str_split_first_piece<'a>(s: &'a str, c: char) -> (r: Option<&'a str>)
+    requires (c as u32) < 128
+    ensures r is Some, r->Some_0.spec_bytes() == split(s.spec_bytes(), c as u8)[0]
+{ unimplemented!() }
+
+/// `opt.as_deref()` for `Option<String>`
+#[verifier::external_body]
+pub fn option_string_as_deref(o: &Option<String>) -> (r: Option<&str>)
+    ensures o is None ==> r is None, o is Some ==> r is Some && r->Some_0@ == o->Some_0@
+{ unimplemented!() }
+
+/// `opt.map(|x| x.to_string())` for `Option<&str>`
+#[verifier::external_body]
+pub fn option_str_to_string(o: Option<&str>) -> (r: Option<String>)
+    ensures o is None ==> r is None, o is Some ==> r is Some && r->Some_0@ == o->Some_0@
+{ unimplemented!() }
